@@ -163,11 +163,16 @@ class Slice(NullCell):
         return self.load_bytes(byte_length).decode()
 
     def load_snake_bytes(self) -> bytes:
-        assert not self.remaining_bits % 8, f'invalid string length: {self.remaining_bits}'
-        assert self.remaining_refs in (0, 1), f'invalid amount of refs: {self.remaining_refs}'
-        if not self.remaining_refs:
-            return self.load_bytes(self.remaining_bits // 8)
-        return self.load_bytes(self.remaining_bits // 8) + self.load_ref().begin_parse().load_snake_bytes()
+        # walks the chain in a loop: it may be as deep as cells can be (1023), deeper than the recursion limit allows
+        result = []
+        cs = self
+        while True:
+            assert not cs.remaining_bits % 8, f'invalid string length: {cs.remaining_bits}'
+            assert cs.remaining_refs in (0, 1), f'invalid amount of refs: {cs.remaining_refs}'
+            result.append(cs.load_bytes(cs.remaining_bits // 8))
+            if not cs.remaining_refs:
+                return b''.join(result)
+            cs = cs.load_ref().begin_parse()
 
     def load_snake_string(self) -> str:
         return self.load_snake_bytes().decode()
